@@ -876,8 +876,11 @@ class Server:
         try:
             s = line.decode(encoding=self.encoding).rstrip()
         except UnicodeDecodeError:
-            # line can be a password: keep its bytes out of the traceback
-            raise ValueError("can't decode command line") from None
+            s = None
+        if s is None:
+            # line can be a password: its bytes must not travel with the
+            # exception (raised here, outside of `except`, for that reason)
+            raise ValueError("can't decode command line")
         cmd, _, rest = s.partition(" ")
         # only ascii verbs exist ("\u212a".lower() is "k")
         verb = cmd.lower() if cmd.isascii() else cmd
